@@ -4,12 +4,14 @@
    parser.parse (C01_document), several grids per document (C01_multi_grid); date-times per kind (C01_datetime) and as
    cells of whole grids in two-sided form (C01_full_grid_with_datetimes); version 2.0 grids without and with metadata
    (C01_grid_2_0, C01_grid_2_0_with_metadata).  Each kind goes through the reader's WHOLE scalar alternation.
-   PARTIAL: date-times inside lists / dicts / metadata, and what a date-time text denotes (iso8601 / pytz), are covered by
-   the model-implementation tie and the search (harness/props/c01.py). *)
+   Date-times anywhere - inside lists and dicts, as metadata values, as cells - are C01_full_grid_two_sided.
+   Version 2.0 grids with date-time cells are C01_grid_2_0_with_datetimes.
+   PARTIAL: date-times inside NESTED GRIDS and in 2.0 metadata, and what a date-time text denotes (iso8601 / pytz),
+   are covered by the model-implementation tie and the search (harness/props/c01.py). *)
 From Coq Require Import String.
 From Coq Require Import List NArith Bool.
 From HS Require Import Base.Prelude Model.Value Model.Escape Model.Version Model.Json Model.ZincDump Model.ZincParse.
-From HS Require Import Proofs.EscapeP Proofs.ZincParseP Proofs.ZincDumpP Proofs.ZincNumP Proofs.ZincDateP Proofs.ZincListP Proofs.ZincGridP Proofs.ZincDictP Proofs.ZincMetaP Proofs.ZincLeavesP Proofs.ZincDocP Proofs.ZincNestP Proofs.ZincCoordP Proofs.ZincXStrP Proofs.ZincDateTimeP Proofs.ZincMultiP Proofs.ZincV2P Proofs.ZincMeta2P Proofs.ZincRawP.
+From HS Require Import Proofs.EscapeP Proofs.ZincParseP Proofs.ZincDumpP Proofs.ZincNumP Proofs.ZincDateP Proofs.ZincListP Proofs.ZincGridP Proofs.ZincDictP Proofs.ZincMetaP Proofs.ZincLeavesP Proofs.ZincDocP Proofs.ZincNestP Proofs.ZincCoordP Proofs.ZincXStrP Proofs.ZincDateTimeP Proofs.ZincMultiP Proofs.ZincV2P Proofs.ZincMeta2P Proofs.ZincRawP Proofs.ZincRaw2P Proofs.ZincRawV2P.
 Import ListNotations.
 Open Scope N_scope.
 
@@ -349,6 +351,54 @@ Proof.
   - right. cbn. repeat split; try reflexivity; try discriminate; repeat constructor.
 Qed.
 
+(* DATE-TIMES ANYWHERE: inside lists and dicts to any depth, as grid and column metadata values, as cells.  wrv n w r t:
+   w is written as t and t is read as r - every value of the general theorem with r = w (zv), a date-time in a named
+   zone with r its raw ISO text and zone name, lists and dicts of such triples; metadata items are markers or such
+   triples.  The written grid (the w side) is dumped to a text which parse_grid reads as the r side. *)
+Theorem C01_full_grid_two_sided : forall n (mq : list q4) (cs : list cq) (rows : list (list (hval * hval))) rts,
+  Forall (mq_ok n) mq -> NoDup (map k4 mq) -> ~ In VERK (map k4 mq) ->
+  cs <> [] -> Forall (cq_ok n) cs -> NoDup (map fst cs) ->
+  Forall2 (fun cells ts => length cells = length (map fst cs) /\ Forall2 (cellwr n) cells ts) rows rts ->
+  (forall f, zdump_grid (S (S (2 * n + f))) V30 (map pkv (map pw mq)) (map (fun c => (fst c, map pkv (snd c))) (map colw cs))
+                        (map (fun cells => combine (map fst cs) (map fst cells)) rows) = Ok (meta_text (map pw mq) (map colw cs) rts)) /\
+  ((2 * n <= length (meta_text (map pw mq) (map colw cs) rts))%nat ->
+   zparse_grid (meta_text (map pw mq) (map colw cs) rts) = Ok (meta_grid (map pr mq) (map colr cs) (map (map snd) rows))).
+Proof. exact full_grid_two_sided. Qed.
+Theorem C01_two_sided_values : forall n w r t, wrv n w r t ->
+  (forall f, zdump (S (2 * n + f)) false w = Ok t) /\ (forall k, readsd (2 * n + k) r t) /\ cellwr n (w, r) t.
+Proof. intros n w r t H. destruct (wrv_sem n w r t H) as [D R]. split; [exact D|]. split; [exact R|apply wrv_cellwr; exact H]. Qed.
+Example C01_two_sided_nonvacuous :
+  wrv 1 (VList [VDateTime 2020 2 29 23 59 59 0 19800 (ZName (s_ "Kolkata")); VNull])
+        (VList [VDateTimeRaw (s_ "2020-02-29T23:59:59+05:30") (Some (s_ "Kolkata")); VNull])
+        (s_ "[2020-02-29T23:59:59+05:30 Kolkata,N]").
+Proof.
+  right. right. left.
+  exists [(VDateTime 2020 2 29 23 59 59 0 19800 (ZName (s_ "Kolkata")), VDateTimeRaw (s_ "2020-02-29T23:59:59+05:30") (Some (s_ "Kolkata")), s_ "2020-02-29T23:59:59+05:30 Kolkata");
+          (VNull, VNull, s_ "N")].
+  split; [reflexivity|]. split; [reflexivity|]. split; [reflexivity|].
+  constructor; [|constructor; [|constructor]].
+  - right. exists 2020, 2, 29, 23, 59, 59, 0, 19800%Z, (s_ "Kolkata"), 43, 5, 30.
+    split; [vm_compute; reflexivity|]. split; [repeat split; try reflexivity; try (left; reflexivity); vm_compute; try discriminate; try reflexivity|].
+    split; [right; cbn; repeat split; try reflexivity; try discriminate; repeat constructor|]. split; [reflexivity|]. split; reflexivity.
+  - left. split; [reflexivity|]. exact leafd_null.
+Qed.
+
+(* VERSION 2.0 WITH DATE-TIME CELLS (date-times are a 2.0 kind): two-sided as above, metadata over the 2.0 values *)
+Theorem C01_grid_2_0_with_datetimes : forall mps cols (rows : list (list (hval * hval))) rts,
+  Forall mval2 mps -> NoDup (mkeys mps) -> ~ In VERK (mkeys mps) ->
+  cols <> [] -> Forall mcol2 cols -> NoDup (map fst cols) ->
+  Forall2 (fun cells ts => length cells = length (map fst cols) /\ Forall2 cellwr20 cells ts) rows rts ->
+  (forall f, zdump_grid (S (S f)) V20 (map pkv mps) (map (fun c => (fst c, map pkv (snd c))) cols)
+                        (map (fun cells => combine (map fst cols) (map fst cells)) rows) = Ok (meta_text2 mps cols rts)) /\
+  zparse_grid (meta_text2 mps cols rts) = Ok (meta_grid2 mps cols (map (map snd) rows)).
+Proof. exact grid2_two_sided. Qed.
+Theorem C01_cells_2_0_two_sided :
+  (forall v t, cell2 v t -> cellwr20 (v, v) t) /\
+  (forall y m d h mi s us off zn sg hh mm, iso_offset off = off_text sg hh mm -> dt_ok y m d h mi s us sg hh mm -> tzname_ok zn ->
+     cellwr20 (VDateTime y m d h mi s us off (ZName zn), VDateTimeRaw (iso_datetime y m d h mi s us off) (Some zn))
+              (iso_datetime y m d h mi s us off ++ 32 :: zn)).
+Proof. split; [exact cellwr20_same|exact cellwr20_datetime]. Qed.
+
 (* SEVERAL GRIDS IN ONE DOCUMENT: the writer joins the grid texts with a line feed, so that an empty line separates them;
    parser.parse cuts the text there again and reads the grids in order.  For grid texts that are non-empty lines ended by
    one line feed each (body_ok), not starting with a blank: if each grid is written as its text and each text is read as
@@ -546,6 +596,10 @@ Print Assumptions C01_grid_2_0.
 Print Assumptions C01_leaves_2_0.
 Print Assumptions C01_full_grid_with_datetimes.
 Print Assumptions C01_datetime_cells.
+Print Assumptions C01_full_grid_two_sided.
+Print Assumptions C01_two_sided_values.
+Print Assumptions C01_grid_2_0_with_datetimes.
+Print Assumptions C01_cells_2_0_two_sided.
 Print Assumptions C01_grid_2_0_with_metadata.
 Print Assumptions C01_metadata_values_2_0.
 Print Assumptions C01_multi_grid.
